@@ -408,6 +408,9 @@ func c13CacheProbes(r *ev.Run, p *prng.R, batch, round int) {
 		if len(got) > 0 {
 			r.Distinct("read|" + pn + "|" + kinds)
 			r.Count("read_probes."+pn, 1)
+			if r.NeedSample() {
+				r.Sample(map[string]interface{}{"read_path": pn, "models_returned": len(got), "in_place_mutations": n, "column_kinds": kinds, "cache_dump_before": before})
+			}
 		}
 		if after := e.dump(); after != before {
 			r.Violation("C13/read-path-returns-cache-memory/"+pn, fmt.Sprintf("mutating the models returned by %s (%d in-place mutations on %d models) changes what the cache returns next", pn, n, len(got)),
